@@ -29,6 +29,14 @@ def run(ctx):
                                              path, label=label)
         for k in total:
             total[k] += summ[k]
+        if label == "rand" or not quick:
+            # once more with random parts spread over the whole uint64 range (as the proxy's IDs are): the order
+            # "(timestamp, random part)" must hold for them as well
+            mism2, summ2, _ = vlib.run_cases(ctx, drv, ["-forms", "active,sealed", "-paths", "ast", "-workers", str(vlib.NCPU), "-wide"],
+                                             path, label=label + "-wide")
+            for k in total:
+                total[k] += summ2[k]
+            mism = list(mism) + list(mism2)
         for m in mism:
             sig = "search:%s:%s:%s" % (m.get("form"), m.get("path"), m.get("what", "")[:40])
             ctx.violation(sig, m, what="engine answer differs from QueryRef!Search")
